@@ -411,6 +411,37 @@ def run(chk):
             stress_fail.append(bad[0])
     chk.extra["stress"] = {"runs": reps, "threads": 16, "failing_runs": len(stress_fail), "first": stress_fail[:1]}
 
+    # ---- configuration x site stream: every union site / alternative / shape of the metamodel (the C14 per-site stream: valid values
+    #      only) through converters created in each configuration, each in its own fresh interpreter; ok/raise, the structured graph and
+    #      the re-serialisation must be the same as the default configuration's
+    import conv_props as CP
+    import conv_stream as CS
+    import mmlib
+    mmv = mmlib.MMView()
+    pkg = CS.load_pkg(mmv)
+    scases = CP.site_stream(mmv, pkg, single_optional=(chk.tier != "quick")) + CP.sys_cases(mmv, pkg)
+    if chk.tier == "quick":
+        scases = [c for i, c in enumerate(scases) if c.get("kind") != "valid-sys" or i % 2 == 0]
+    cfgs = ["", "nodetail", "detail", "user", "third"]
+    with cf.ThreadPoolExecutor(5) as ex:
+        cres = list(ex.map(lambda g: CS.real_run(scases, cfg=g or None)["results"], cfgs))
+    cfg_bad = None
+    for g, res in zip(cfgs[1:], cres[1:]):
+        for c, a, b in zip(scases, cres[0], res):
+            chk.count(("cfg-site", g, c["target"], json.dumps(c["input"], sort_keys=True)))
+            same = a["ok"] == b["ok"] and (not a["ok"] or (a.get("dump") == b.get("dump") and a.get("unstr") == b.get("unstr") and a.get("unstr_ok") == b.get("unstr_ok")))
+            if not same and cfg_bad is None:
+                cfg_bad = {"configuration": g, "target": c["target"], "site": c.get("site"), "json": c["input"],
+                           "default_converter": {k: a.get(k) for k in ("ok", "err", "msg", "unstr")}, "this_converter": {k: b.get(k) for k in ("ok", "err", "msg", "unstr")}}
+    chk.obligation("configuration-stream:site-inputs-agree", cfg_bad is None,
+                   "%d valid inputs (every union site x alternative x shape + systematic values) x configurations %s, each in a fresh interpreter" % (len(scases), cfgs))
+    chk.extra["configuration_site_inputs"] = len(scases)
+    if cfg_bad:
+        chk.violation({"property": "C19", "kind": "configuration", "input": {"mode": "config-site", "spec": cfg_bad},
+                       "expected": "the same ok/raise, structured value and re-serialisation as the default get_converter() on this valid input",
+                       "observed_impl": cfg_bad, "broken": [b[:2] for b in broken],
+                       "how_to_replay": "./check C19 --replay <this file>  (VERIF_CONV_CFG=<configuration> python lib/r_conv.py)"})
+
     # ---- verdict
     key = finding_key(info)
     opens, _ = V.known_findings("C19")
@@ -494,6 +525,15 @@ def replay(path, quiet=False):
             print("no concrete input recorded:", json.dumps(r.get("broken") or r.get("obligation"))[:2000])
         return 1
     mode, spec = inp["mode"], inp["spec"]
+    if mode == "config-site":
+        import conv_stream as CS
+        case = [{"target": spec["target"], "input": spec["json"]}]
+        a = CS.real_run(case)["results"][0]
+        b = CS.real_run(case, cfg=spec["configuration"])["results"][0]
+        same = a["ok"] == b["ok"] and (not a["ok"] or (a.get("dump") == b.get("dump") and a.get("unstr") == b.get("unstr")))
+        if not quiet:
+            print("default:", {k: a.get(k) for k in ("ok", "err", "msg")}, "|", spec["configuration"] + ":", {k: b.get(k) for k in ("ok", "err", "msg")})
+        return 0 if same else 1
     ref = r.get("reference")
     for _ in range(inp.get("repeat", 1)):
         res = real(mode, spec)
